@@ -19,6 +19,9 @@ declare -A CH=(
  [C16-m1]="C16" [C16-m2]="C16 C08"
  [C17-m1]="C17 C05" [C17-m2]="C17 C03"
  [C18-m1]="C18" [C18-m2]="C18"
+ [FIX-c774c1e]="C17 C05" [FIX-226f2f3]="C10 C01" [FIX-43f202f]="C05 C04" [FIX-9b7b0f8]="C03 C04"
+ [FIX-d87b890]="C14" [FIX-e822f71]="C14" [FIX-eeb7108]="C14" [FIX-711dc21]="C14"
+ [FIX-7f0734b]="C10 C01" [FIX-23c75cf]="C10 C01"
 )
 for id in "$@"; do
   echo "=== $id"
